@@ -57,7 +57,7 @@ var famDet = NewFamily("C04.free", func(d detCase) (*Fail, bool) {
 
 func init() {
 	register("C04", "model_checking", func(c *Ctx) {
-		c.Rule("(i) controlled-scheduler DFS over the real encoding tasks: every interleaving of the scheduling points (atomics, WaitGroup, shared-stream ops, goroutine start/exit) for jobs 2 and 3 with no preemption bound (sleep-set reduction) and jobs 4 with a preemption bound; the sink bytes of every execution are compared with the jobs=1 reference; states = distinct abstract protocol states (atomic values, per-thread pending op, WaitGroup count, stream holder), transitions = distinct (state, step); every execution is a real implementation run. (ii) free-running product jobs x hint x codec x length, 3 repetitions. (iii) all compositions of the input into Write calls over a size alphabet. Non-trivial = more than one task or more than one Write call")
+		c.Rule("(i) controlled-scheduler DFS over the real encoding tasks: every interleaving of the scheduling points (atomics, WaitGroup, shared-stream ops, goroutine start/exit) for jobs 2, 3, 4 with no preemption bound (sleep-set reduction), jobs 4 also preemption-bounded plain DFS, and jobs 4-5 (6, 8 in thorough) over up to 4 batches with the state-caching DFS (a global state = atomic values + pending op and call path of every thread + order of the shared-stream operations + API results so far; a state seen before is not expanded again); the sink bytes of every execution are compared with the jobs=1 reference; states = distinct abstract protocol states (atomic values, per-thread pending op, WaitGroup count, stream holder), transitions = distinct (state, step); every execution is a real implementation run. (ii) free-running product jobs x hint x codec x length, 3 repetitions. (iii) all compositions of the input into Write calls over a size alphabet. Non-trivial = more than one task or more than one Write call")
 		c.Assume("Go atomics are sequentially consistent, so SC interleavings of the scheduling points are the memory model of the protocol; unsynchronised accesses are the business of the separate -race pass (C18)")
 		var specs []e1Spec
 		add := func(s e1Spec) {
@@ -83,7 +83,13 @@ func init() {
 		s = encSpec("enc j2 LZ/HUFFMAN 3blk+tail", 2, 3, 100, -1, "sleep", -1)
 		s.Transform, s.Entropy = "LZ", "HUFFMAN"
 		add(s)
+		// state-caching exploration (no bound): more tasks and more batches than the sleep-set mode can finish
+		add(encSpec("enc j5 5blk+tail state-caching", 5, 5, 100, -1, "cache", -1))
+		add(encSpec("enc j4 12blk+tail (4 batches) state-caching", 4, 12, 100, -2, "cache", -1))
+		add(encSpec("enc j2 3blk+tail state-caching (cross-check)", 2, 3, 100, -1, "cache", -1))
 		if c.Thorough() {
+			add(encSpec("enc j6 6blk+tail state-caching", 6, 6, 100, -1, "cache", -1))
+			add(encSpec("enc j8 8blk+tail state-caching", 8, 8, 100, -1, "cache", -1))
 			add(encSpec("enc j5 5blk+tail unbounded", 5, 5, 100, -1, "sleep", -1))
 			add(encSpec("enc j4 8blk+tail unbounded (two full batches + tail)", 4, 8, 100, -1, "sleep", -1))
 			add(encSpec("enc j3 4blk+tail plain bound3", 3, 4, 100, -1, "bounded", 3))
